@@ -60,6 +60,9 @@ def bounds(tier, seed):
 
 def check_gate_output(res, sig, what, data, out_full, out_short, exp_mask, one, nontrivial=None):
     """common clauses: mask == predicate, gated == data[mask] incl. metadata, short == full"""
+    if not (hasattr(out_full, 'mask') and hasattr(out_full, 'gated_data')):
+        res.violation(sig + ':full-form', '%s: with full_output=True the gate returned a %s without mask / gated_data' % (what, type(out_full).__name__), one)
+        return False
     mask = np.asarray(out_full.mask)
     if mask.dtype != bool or mask.shape != (data.shape[0],):
         res.violation(sig + ':maskshape', '%s: mask dtype %s shape %s' % (what, mask.dtype, mask.shape), one)
